@@ -11,7 +11,7 @@ import os
 
 from verifkit import Infra, read_ndjson, write_ndjson
 
-STARTS = {"AStart", "BStart", "Conn", "SyncEnd", "Note"}
+STARTS = {"AStart", "BStart", "SStart", "Conn", "SyncEnd", "Note"}
 MAX_REJECTIONS = 8
 
 
@@ -46,6 +46,15 @@ def judge_download(case):
     st, end = case[0], case[-1]
     if end["e"] != "BEnd":
         return False, "no end recorded"
+    if end["status"] == "panic":
+        return False, "real code panicked: %s" % end.get("err")
+    if st["e"] == "SStart":
+        blocks = [b["id"] for b in st["stream"] if b["id"] != "nil"]
+        if end["status"] != "ok":
+            return False, "handleBlockStream failed on a stream of valid blocks and nil markers: %s" % end.get("err")
+        if end["imported"] != blocks or not end["digestOK"]:
+            return False, "handleBlockStream did not import exactly the blocks of the stream"
+        return True, "observables right"
     fetches = [e for e in case if e["e"] == "Fetch"]
     local = {b["id"]: b for b in st["local"]}
     head = local[st["best"]]
@@ -75,6 +84,14 @@ def judge_download(case):
             want = b
     if end["best"] != want["id"]:
         return False, "best is %s, fork choice over the stored blocks gives %s" % (end["best"], want["id"])
+    if st.get("honest"):
+        # Converges: an honest real Communicator served; the node must end on the better of its own and the peer's head
+        rh = st["rhead"]
+        goal = rh if better(rh, head) else head
+        if end["best"] != goal["id"]:
+            return False, ("download from an honest peer returned nil but best is %s (height %s), the peer's better head is %s "
+                           "(height %d): the node reports a finished sync below the peer's chain"
+                           % (end["best"], {b["id"]: b["num"] for b in list(local.values()) + new}.get(end["best"]), rh["id"], rh["num"]))
     return True, "observables right"
 
 
@@ -113,7 +130,7 @@ def judge(case):
     k = case[0]["e"]
     if k == "AStart":
         return judge_ancestor(case)
-    if k == "BStart":
+    if k in ("BStart", "SStart"):
         return judge_download(case)
     if k == "Conn":
         return judge_msg(case)
@@ -126,7 +143,7 @@ def case_label(case):
     h = case[0]
     if h["e"] == "AStart":
         return "ancestor H=%d A=%d R=%d" % (h["H"], h["A"], h["R"])
-    if h["e"] == "BStart":
+    if h["e"] in ("BStart", "SStart"):
         return "download " + h["case"]
     if h["e"] == "Conn" and len(case) > 1:
         m = case[1]
@@ -138,6 +155,10 @@ def signature(case, why):
     h = case[0]
     if h["e"] == "AStart":
         return "ancestor-wrong"
+    if case[-1].get("status") == "panic":
+        return "panic:handleBlockStream"
+    if h["e"] == "SStart":
+        return "stream:" + str(case[-1].get("status"))
     if h["e"] == "BStart":
         parts = h["case"].split("/")
         return "download:%s:%s" % (parts[2].split("@")[0] if len(parts) > 2 else "?", case[-1].get("status"))
